@@ -17,7 +17,6 @@ TNext == /\ l <= Len(T.steps) /\ l' = l + 1 /\ tid' = tid
               /\ file0' = s.before /\ attr' = s.attr /\ file' = s.after /\ pc' = "done"   \* a finished run of the helper
               \* a step of kind "write" is a mutation made between attribute changes (SetAttr_Session!Write): nothing to judge
               /\ bad' = (IF s.kind = "write" THEN {} ELSE Verdict')
-                       \cup (IF s.raised THEN {"P_call_failed"} ELSE {})
                        \cup (IF l > 1 /\ T.steps[l - 1].after.content # s.before.content THEN {"C_chain"} ELSE {})
 TSpec == TInit /\ [][TNext]_tvars
 SizeClass(s) == IF ~s.attr.has_size THEN "none"
